@@ -26,5 +26,5 @@ def run(ctx, rep):
     builtins.rule_template_single_pass(ctx, rep, "C16-R8")
     optargs.rule_integer_argument_consulted(ctx, rep, "C16-R9", lambda f: _in_family(f.qual), "the String methods", floor=3)
     textparse.rule_nan_position_means_end(ctx, rep, "C16-R10")
-    textparse.rule_raw_number_subscripts(ctx, rep, "C16-R11")
+    textparse.rule_raw_number_subscripts(ctx, rep, "C16-R11", booleans=True)
     rep.undecided += ["the method result tables over the argument grid (values, not shape): a runtime differential, outside static analysis"]
